@@ -1086,8 +1086,9 @@ class Circuit(Function):
                 self._gates[input_label] = gate.Gate(input_label, new_type)
                 self._inputs.remove(input_label)
 
-        _replace_inputs(inputs_to_true, gate.ALWAYS_TRUE)
-        _replace_inputs(inputs_to_false, gate.ALWAYS_FALSE)
+        # the arguments may be `self.inputs` itself, which shrinks while inputs are replaced.
+        _replace_inputs(list(inputs_to_true), gate.ALWAYS_TRUE)
+        _replace_inputs(list(inputs_to_false), gate.ALWAYS_FALSE)
 
         return self
 
